@@ -158,7 +158,7 @@ func (e *effEngine) classes(fn *ssa.Function, depth int) ([]effClass, string) {
 				}
 			case *ssa.Return:
 				cl := effClass{dReg: st.dReg, dAdv: st.dAdv, unknown: st.unknown, facts: st.facts, trace: append(st.trace, "return@"+e.p.pos(x.Pos()))}
-				for _, r := range x.Results {
+				for _, r := range returnValues(x) {
 					cl.rets = append(cl.rets, st.constOf(r))
 				}
 				cl.miss = e.touchesReg(fn) && !st.shrunk && st.dReg == 0 && e.hasShrink(fn)
